@@ -28,6 +28,8 @@ API (everything is plain data; every random choice comes from the `rng` you pass
          .end       expected end offset of that span (None when it depends on parser internals)
          .fs        extra in-memory files the fault needs (for impl.assemble(fs=...)); usually {}
          .kind      the Fault
+         .also      [(identifier, start, end)]: LATER diagnostics that must lead with that token (e.g. the
+                    undefined-symbol that follows a label-fixup warning)
          .others    [(start, end)] of the secondary locations (in the order the report site gives
                     them) when a set-up statement of the kind carries a marked token, e.g. the first
                     definition of a duplicate symbol
@@ -42,14 +44,15 @@ white space and comments before it notices that something is missing).
 """
 import collections
 
-Planted = collections.namedtuple("Planted", "source ident severity offset end fs kind others")
+Planted = collections.namedtuple("Planted", "source ident severity offset end fs kind others also", defaults=([],))
 
 L, R = "«", "»"
+L2, R2, L3, R3 = "⟦", "⟧", "⦃", "⦄"       # second and third location of the same diagnostic, inside the faulty statement
 
 
 class Fault:
     def __init__(self, name, phase, severity, ident, stmt, pre=(), post=(), fs=None, where="marker", note="",
-                 needs_no_link=False, main_only=False):
+                 needs_no_link=False, main_only=False, also=()):
         assert phase in ("parse-critical", "parse", "compile", "eval")
         assert severity in ("critical", "error", "warning")
         self.name, self.phase, self.severity, self.ident = name, phase, severity, ident
@@ -57,6 +60,7 @@ class Fault:
         self.where, self.note = where, note
         self.needs_no_link = needs_no_link      # the benign program must not set the link base
         self.main_only = main_only              # only meaningful in a linked file (not inside .include)
+        self.also = list(also)                  # [(identifier, "second"|"third")]: a LATER diagnostic that must lead with that marked token
 
     def __repr__(self):
         return f"<Fault {self.name}: {self.severity} {self.ident}>"
@@ -203,6 +207,20 @@ _k("register-number-after-complement", "eval", "error", "unexpected-value", ".wo
 _k("register-number-after-complement-tight", "eval", "error", "unexpected-value", ".word 1 + (~«%3»)")
 _k("immediate-third-in-prefix-chain", "eval", "error", "unexpected-value", ".word (- ~\t«#5»)")
 _k("immediate-after-minus-in-byte", "eval", "error", "unexpected-value", ".byte 1, (-«#5»)")
+# A branch / sob offset written as a complex expression without '(' or ':': OffsetOperandStub.encode rewrites, at
+# encode time, the FIRST label-shaped number met before any symbol or '.' (left operand before right; decimal 'n.',
+# negative, '^X..' and character literals are not label-shaped) into the local label of that name (the rule is
+# Props/C04_fixup.v C04_fixup_target_is_first).  The 'label-fixup' warning names (mnemonic, operand, that number);
+# the local label being undefined, 'undefined-symbol' must then point at that number, not at the operand.
+_FIX = dict(also=[("undefined-symbol", "third")],
+            note="first diagnostic: warning label-fixup (mnemonic, whole operand, the number taken for a label); then undefined-symbol at that number")
+_k("branch-label-number-after-decimal", "compile", "warning", "label-fixup", "«br» ⟦10.+⦃7⦄⟧", **_FIX)
+_k("sob-label-number-after-negative", "compile", "warning", "label-fixup", "«sob» r1, -⟦2 + ⦃5⦄⟧", **_FIX)
+_k("branch-label-number-after-hex", "compile", "warning", "label-fixup", "«beq» ⟦^X10+⦃3⦄⟧", **_FIX)
+_k("branch-label-number-after-non-ascii-char-and-tab", "compile", "warning", "label-fixup", "«bne» ⟦'é + \t⦃7⦄⟧", **_FIX)
+_k("branch-label-number-third-leaf", "compile", "warning", "label-fixup", "«br» ⟦10. * 2. +\t⦃6⦄ + 4⟧", **_FIX)
+_k("branch-label-number-c-style-hex", "compile", "warning", "label-fixup", "«bcc» ⟦2. + ⦃0x1f⦄⟧", **_FIX)
+_k("branch-label-number-with-digit-9", "compile", "warning", "label-fixup", "«bvs» ⟦8. - \t ⦃19⦄⟧", **_FIX)
 _k("register-as-value", "eval", "error", "unexpected-register", ".word «r1»")
 _k("autoincrement-as-value", "eval", "error", "unexpected-value", ".word (1)«+»",
    note="postfix operator tokens span the operator only (parser.expression: operator(ctx_op, ctx_op_end, ...))")
@@ -303,7 +321,9 @@ def benign_program(rng, n, tag):
 
 
 def _strip(text):
-    return text.replace(L, "").replace(R, "")
+    for ch in (L, R, L2, R2, L3, R3):
+        text = text.replace(ch, "")
+    return text
 
 
 def _skip_ws_comments(src, p):
@@ -353,8 +373,14 @@ def plant(kind, stmts, pos, lead="", tag="q"):
         b = body.index(R)
         off = len(head) + len(_strip(body[:a]))
         end = len(head) + len(_strip(body[:b]))
+    named = {}
+    for nm, lo, hi in (("second", L2, R2), ("third", L3, R3)):      # further locations of the same diagnostic, in this order
+        if lo in body:
+            named[nm] = (len(head) + len(_strip(body[:body.index(lo)])), len(head) + len(_strip(body[:body.index(hi)])))
+            others.append(named[nm])
+    also = [(ident, named[nm][0], named[nm][1]) for ident, nm in k.also]
     fs = {sub(p): v for p, v in k.fs.items()}
-    return Planted(source, k.ident, k.severity, off, end, fs, k, others)
+    return Planted(source, k.ident, k.severity, off, end, fs, k, others, also)
 
 
 # ---- diagnostics with locations in TWO files ------------------------------------------------------
